@@ -132,7 +132,7 @@ func (p C01) Run(c *sim.Ctx, t *sim.Tape) sim.RunResult {
 		sim.Deactivate()
 	}()
 
-	for i := 0; i < 60 && (i < 5 || t.Chance(950)); i++ {
+	for i, lim := 0, 60*deeper(c, t); i < lim && (i < 5 || t.Chance(950+20*(lim/120))); i++ {
 		o := genC01(t, w, fmt.Sprintf("<%d>", i))
 
 		if filtered {
